@@ -11,10 +11,14 @@ Inductive case :=
      now: timeNow() in ns; tree: every entry below the case directory before the pass, sorted by name;
      rtab: (i, p, confs[i].Regexp matches p); ftab: (p, index conf.FindPathConf(confs, p) returns);
      protected: entries the generator made as directories, foreign files or look-alikes (never to be removed);
+     recorded: the generator's ground truth - (i, path name, k, u, n): the file tree[i] was written with the real
+       Path.Encode for that path name under confs[k]'s record path and extension, with start (u s, n ns) as the
+       format keeps it (microseconds with %f, else whole seconds);
      names: FindAllPathsWithSegments(confs) before the pass; removed: non-directories gone after doRun, sorted *)
 | Pass (loff : Z) (confs : list pconf) (now : Z) (tree : list entry)
        (rtab : list (nat * list Z * bool)) (ftab : list (list Z * option nat))
-       (protected : list (list Z)) (names : list (list Z)) (removed : list (list Z)).
+       (protected : list (list Z)) (recorded : list (nat * list Z * nat * Z * Z))
+       (names : list (list Z)) (removed : list (list Z)).
 
 Definition rematch_of (rtab : list (nat * list Z * bool)) (i : nat) (p : list Z) : bool :=
   match find (fun x => Nat.eqb (fst (fst x)) i && bytes_eqb (snd (fst x)) p) rtab with
@@ -37,7 +41,7 @@ Definition subset (a b : list (list Z)) : bool := forallb (fun x => mem x b) a.
 
 Definition mismatch (c : case) : bool :=
   match c with
-  | Pass loff confs now tree rtab ftab _ names removed =>
+  | Pass loff confs now tree rtab ftab _ _ names removed =>
       let rm := rematch_of rtab in
       let rs := resolve_of ftab in
       let pn := path_names (fixed_lz loff) rm confs tree in
@@ -70,12 +74,36 @@ Definition expired_segment_of (loff : Z) (confs : list pconf) (now : Z) (ftab : 
   | None => false
   end.
 
+(* Ground truth, without Decode: a file the recorder's Encode wrote for path name pn under the record path of
+   confs[k] must go when pn resolves to a configuration with the same record path and extension (so that the
+   file is a segment of pn under it), that configuration is pn's static entry or a regular expression matching
+   pn (so that the file itself makes FindAllPathsWithSegments report pn), deleteAfter <> 0 and the start the
+   format keeps is <= now - deleteAfter. *)
+Definition must_go (confs : list pconf) (now : Z) (rtab : list (nat * list Z * bool))
+           (ftab : list (list Z * option nat)) (x : nat * list Z * nat * Z * Z) : bool :=
+  let '(_, pn, k, u, n) := x in
+  match resolve_of ftab pn, nth_error confs k with
+  | Some j, Some ck =>
+      match nth_error confs j with
+      | Some c =>
+          negb (pc_da c =? 0) && bytes_eqb (pc_rp c) (pc_rp ck) && bytes_eqb (pc_ext c) (pc_ext ck)
+          && (if pc_regex c then rematch_of rtab j pn else bytes_eqb (pc_name c) pn)
+          && (u * 1000000000 + n <=? now - pc_da c)
+      | None => false
+      end
+  | _, _ => false
+  end.
+
+Definition rec_file (tree : list entry) (x : nat * list Z * nat * Z * Z) : list Z :=
+  let '(i, _, _, _, _) := x in fst (nth i tree ([], KDir)).
+
 Definition spec_fail (c : case) : bool :=
   match c with
-  | Pass loff confs now tree rtab ftab protected names removed =>
+  | Pass loff confs now tree rtab ftab protected recorded names removed =>
       let files := map fst (filter (fun e => match snd e with KOther => true | KDir => false end) tree) in
       negb (forallb (fun f => mem f files && negb (mem f protected)
                               && existsb (fun x => expired_segment_of loff confs now ftab (fst x) f) ftab) removed
             && forallb (fun f => negb (existsb (fun p => expired_segment_of loff confs now ftab p f) names)
-                                 || mem f removed) files)
+                                 || mem f removed) files
+            && forallb (fun x => negb (must_go confs now rtab ftab x) || mem (rec_file tree x) removed) recorded)
   end.
